@@ -9,6 +9,7 @@
 package c04
 
 import (
+	"context"
 	"database/sql"
 	"encoding/json"
 	"fmt"
@@ -53,6 +54,7 @@ type Case struct {
 	Pairs         bool        `json:"pairs"`
 	Pick          int64       `json:"pick_seed"`
 	Only          []ops.Fault `json:"only,omitempty"`
+	ctxProbe      bool        // run from a context-bound handle on the pool shim (lists the cancellation sites)
 }
 
 type Prop struct{}
@@ -60,7 +62,7 @@ type Prop struct{}
 func (Prop) ID() string    { return "C04" }
 func (Prop) Level() string { return "fault_enumeration" }
 func (Prop) Rule() string {
-	return "a case is a seeded tree of db.Transaction blocks (depth<=4, outcomes nil/error/panic per block, swallow/propagate per child, unique-valued writes and read-backs between children) or a manual Begin/SavePoint/RollbackTo/Commit/Rollback script, x {PrepareStmt, DisableNestedTransaction, SkipDefaultTransaction}; it runs fault-free against a snapshot-stack model, then once per driver call (BEGIN, SAVEPOINT, ROLLBACK TO, every statement, COMMIT, Prepare) x fault type; thorough adds pairs (fault + fault on the clean-up statement it triggers). An evaluation is one simulated run; non-trivial = a fault fired or a block failed/panicked; distinct = distinct hash of (driver event sequence, outcome)"
+	return "a case is a seeded tree of db.Transaction blocks (depth<=4, outcomes nil/error/panic per block, swallow/propagate per child, unique-valued writes and read-backs between children) or a manual Begin/SavePoint/RollbackTo/Commit/Rollback script (ending in Commit, Rollback, or Rollback followed by Commit), x {PrepareStmt, DisableNestedTransaction, SkipDefaultTransaction}; it runs fault-free against a snapshot-stack model, then once per driver call (BEGIN, SAVEPOINT, ROLLBACK TO, every statement, COMMIT, Prepare) x fault type; and once per call into the connection pool with the caller's context cancelled just before it (oracle: nothing durable, and Transaction / Commit report an error); thorough adds pairs (fault + fault on the clean-up statement it triggers). An evaluation is one simulated run; non-trivial = a fault fired or a block failed/panicked; distinct = distinct hash of (driver event sequence, outcome)"
 }
 func (Prop) Assumptions() []string {
 	return []string{
@@ -153,6 +155,9 @@ func (Prop) Gen(r *core.Rand, tier string) interface{} {
 		c.ManualEnd = "commit"
 		if r.Chance(25) {
 			c.ManualEnd = "rollback"
+			if r.Chance(40) {
+				c.ManualEnd = "rollback_commit"
+			}
 		}
 	}
 	if tier == "thorough" {
@@ -279,6 +284,13 @@ type run struct {
 	nextID  int
 	failed  int // blocks that failed or panicked
 	sps     [][]spEntry
+	// cancellation runs: the lock-step model is off (every statement after the
+	// cancellation fails), the oracle is "nothing durable and an error reported"
+	cancelMode   bool
+	topErr       error // what the outermost Transaction call returned
+	topReturned  bool
+	commitCalled bool // manual script: Commit() was reached
+	commitErr    error
 }
 
 type spEntry struct {
@@ -287,6 +299,9 @@ type spEntry struct {
 }
 
 func (r *run) fail(class, key, detail string) {
+	if r.cancelMode {
+		return
+	}
 	if r.viol == nil {
 		r.viol = &core.Violation{Class: class, Key: key, Detail: detail}
 	}
@@ -700,8 +715,17 @@ func (r *run) manual(db *gorm.DB) {
 		abort()
 		return
 	}
+	if r.c.ManualEnd == "rollback_commit" {
+		// Commit after Rollback: nothing was made durable, so it must not report success
+		abort()
+		if err := tx.Commit().Error; err == nil {
+			r.fail("swallowed_commit_error", where+"|commit_after_rollback", "Commit() after Rollback() returned no error although nothing was committed")
+		}
+		return
+	}
 	nEv := len(r.e.Drv.Events())
 	err := tx.Commit().Error
+	r.commitCalled, r.commitErr = true, err
 	ok, ackLost := false, false
 	for _, ev := range r.eventsSince(nEv) {
 		if ev.Kind == "commit" {
@@ -731,20 +755,46 @@ type result struct {
 	viol     *core.Violation
 	failed   int
 	panicked bool
+	points   []string // kinds of the pool calls made (pool shim runs)
 }
 
 func (p Prop) exec(c *Case, faults []*ops.Fault) (*result, error) {
 	res := &result{}
 	var r *run
-	o := env.Options{PrepareStmt: c.Prepare, DisableNestedTransaction: c.DisableNested, SkipDefaultTransaction: c.SkipDefault}
-	if c.PoolShim {
-		o.WrapPool = func(db *sql.DB, drv *simdrv.Sim) gorm.ConnPool { return simpool.New(db, drv) }
+	var cf *ops.CancelFault
+	var drvFaults []*ops.Fault
+	for _, f := range faults {
+		if f.Cancel != nil {
+			cf = f.Cancel
+		} else {
+			drvFaults = append(drvFaults, f)
+		}
 	}
-	sr, err := ops.RunMulti(o, faults, nil, func(e *env.Env) ops.Result {
-		r = &run{c: c, e: e, worlds: []world{{map[string]string{"base": "0"}}}}
-		for _, f := range faults {
+	o := env.Options{PrepareStmt: c.Prepare, DisableNestedTransaction: c.DisableNested, SkipDefaultTransaction: c.SkipDefault}
+	var pool *simpool.Pool
+	if c.PoolShim || cf != nil || c.ctxProbe {
+		o.WrapPool = func(db *sql.DB, drv *simdrv.Sim) gorm.ConnPool {
+			pool = simpool.New(db, drv)
+			return pool
+		}
+	}
+	ctx, cancel := context.WithCancel(context.Background())
+	defer cancel()
+	sr, err := ops.RunMulti(o, drvFaults, nil, func(e *env.Env) ops.Result {
+		r = &run{c: c, e: e, worlds: []world{{map[string]string{"base": "0"}}}, cancelMode: cf != nil}
+		for _, f := range drvFaults {
 			if f.Drv != nil {
 				r.faults = append(r.faults, f.Drv)
+			}
+		}
+		h := e.DB
+		first := 0
+		if cf != nil || c.ctxProbe {
+			h = e.DB.WithContext(ctx)
+			first = pool.Calls()
+			if cf != nil {
+				pool.Cancel = cancel
+				pool.CancelAt = first + cf.K
 			}
 		}
 		func() {
@@ -757,11 +807,22 @@ func (p Prop) exec(c *Case, faults []*ops.Fault) (*result, error) {
 				}
 			}()
 			if c.Tree != nil {
-				r.block(e.DB, c.Tree, 1, "0")
+				r.topErr = r.block(h, c.Tree, 1, "0")
+				r.topReturned = true
 			} else {
-				r.manual(e.DB)
+				r.manual(h)
 			}
 		}()
+		if pool != nil {
+			pool.CancelAt = -1
+			res.points = pool.Points
+			if first <= len(res.points) {
+				res.points = res.points[first:]
+			}
+			if cf != nil {
+				cf.Fired = pool.CancelSeq != 0
+			}
+		}
 		return ops.Result{}
 	})
 	if err != nil {
@@ -779,6 +840,25 @@ func (p Prop) exec(c *Case, faults []*ops.Fault) (*result, error) {
 		return nil, sr.DumpErr
 	}
 	got := kvDump(sr.D1)
+	if cf != nil {
+		if !cf.Fired {
+			return res, nil
+		}
+		// the context was cancelled inside the outermost transaction (or before its
+		// BEGIN): database/sql rolls it back, so nothing is durable, and the caller
+		// must be told
+		if want := render(map[string]string{"base": "0"}); got != want {
+			res.viol = &core.Violation{Class: "durable_state", Key: "cancelled", Detail: fmt.Sprintf("the context was cancelled before pool call #%d (%s) of the outermost transaction, yet the table contains {%s} (%s)", cf.K, cf.At, got, r.cfgKey())}
+			return res, nil
+		}
+		switch {
+		case c.Tree != nil && r.topReturned && r.topErr == nil:
+			res.viol = &core.Violation{Class: "swallowed_commit_error", Key: "cancelled|transaction", Detail: fmt.Sprintf("the context was cancelled before pool call #%d (%s); nothing is durable but Transaction returned nil (%s)", cf.K, cf.At, r.cfgKey())}
+		case c.Tree == nil && r.commitCalled && r.commitErr == nil:
+			res.viol = &core.Violation{Class: "swallowed_commit_error", Key: "cancelled|manual", Detail: fmt.Sprintf("the context was cancelled before pool call #%d (%s); nothing is durable but Commit() returned no error (%s)", cf.K, cf.At, r.cfgKey())}
+		}
+		return res, nil
+	}
 	var wants []string
 	match := false
 	for _, w := range r.worlds {
@@ -872,8 +952,32 @@ func (p Prop) Run(ci interface{}, focus *core.Violation) *core.Outcome {
 		sites := ops.DriverSites(base.sr.Events, &id)
 		ops.SortFaults(sites)
 		out.Count("sites_total", int64(len(sites)))
+		// cancellation sites: one per pool call of the same case run from a context-bound handle
+		pc := *c
+		pc.ctxProbe = true
+		probe, err := p.exec(&pc, nil)
+		if err != nil {
+			out.Trouble = "context-bound fault-free run: " + err.Error()
+			return out
+		}
+		out.Runs++
+		if probe.viol != nil {
+			probe.viol.Key = "no_fault|context_bound|" + probe.viol.Key
+			if out.Report(probe.viol, focus, h) {
+				c.Only = []ops.Fault{}
+				return out
+			}
+		}
+		for k, pt := range probe.points {
+			if k >= 60 {
+				break
+			}
+			id++
+			sites = append(sites, ops.Fault{Cancel: &ops.CancelFault{ID: id, K: k, At: pt}})
+		}
+		ops.SortFaults(sites)
 		for i := range sites {
-			if sites[i].Drv.Kind == "next" && sites[i].Drv.Row > 1 {
+			if sites[i].Drv != nil && sites[i].Drv.Kind == "next" && sites[i].Drv.Row > 1 {
 				continue
 			}
 			plans = append(plans, []*ops.Fault{&sites[i]})
@@ -896,6 +1000,15 @@ func (p Prop) Run(ci interface{}, focus *core.Violation) *core.Outcome {
 		out.Runs++
 		fired := false
 		for _, f := range fs {
+			if f.Cancel != nil {
+				if f.Cancel.Fired {
+					fired = true
+					out.Count("fired:cancel_"+f.Cancel.At, 1)
+				} else {
+					out.Count("not_fired:cancel_"+f.Cancel.At, 1)
+				}
+				continue
+			}
 			k := f.Drv.Kind + "_" + f.Drv.Type
 			if strings.HasPrefix(f.Drv.SQL, "SAVEPOINT ") {
 				k = "savepoint_" + f.Drv.Type
@@ -928,7 +1041,7 @@ func (p Prop) Run(ci interface{}, focus *core.Violation) *core.Outcome {
 		if stop {
 			return out
 		}
-		if !c.Pairs || c.Only != nil || len(fs) != 1 || fs[0].Drv.Fired == 0 {
+		if !c.Pairs || c.Only != nil || len(fs) != 1 || fs[0].Drv == nil || fs[0].Drv.Fired == 0 {
 			continue
 		}
 		// pairs: fault the clean-up statements (ROLLBACK TO / ROLLBACK) that followed the first fault
